@@ -55,6 +55,7 @@ def instances(tier):
     for g in (4, 5):
         out.append({"kind": "flapping", "gen": g})
         out.append({"kind": "held_commands", "gen": g})
+        out.append({"kind": "error_text_lost", "gen": g})
     return out
 
 
@@ -77,6 +78,8 @@ def run(ctx, p):
         return _flapping(ctx, p)
     if p["kind"] == "held_commands":
         return _held_commands(ctx, p)
+    if p["kind"] == "error_text_lost":
+        return _error_text_lost(ctx, p)
     return _group_silence(ctx, p)
 
 
@@ -259,6 +262,43 @@ def _group_silence_reconnect(ctx, p):
         ok = len(reqs) == 4 and _b(sym_and(*[a == b for a, b in zip(reqs, exp)]))
         ctx.check(ok, "at4.group_poll_after_300s", detail={"requests": [str(t) for t in reqs], "expected": [str(t) for t in exp]})
         ctx.check(len(rig.net.conns) == 2 and not rig.task_failures(), "refresh.requests_first", detail="connections / task failure")
+    for lab in expect_labels("quick"):
+        ctx.reach(lab)
+
+
+def _error_text_lost(ctx, p):
+    """An AC reports an error; the client asks for the error text; the link is lost at a free instant before the console's
+    answer (which takes 100 ms) has arrived. After the reconnection the model converges to what the console reports then:
+    the error code and its text."""
+    g = Gen(p["gen"])
+    inst = Installation.simple(g.n, n_acs=2, zones_per_ac=2)
+    inst.errors[0] = "ER: 0005"
+    t_drop = 1.0 + ctx.real("dt", 0, 0.1, lo_strict=True)
+    with ApiRig(ctx, g, inst) as rig:
+        con = rig.console
+        rig.start()
+        rig.run(0.5)
+        ctx.check(rig.init_result is True, "refresh.model_converges", detail="handshake failed")
+        orig_answer = con._answer
+
+        def slow_answer(conn, kind, fr):
+            if kind == "error":
+                rig.loop.call_later(0.1, orig_answer, conn, kind, fr)
+            else:
+                orig_answer(conn, kind, fr)
+
+        con._answer = slow_answer
+        rec = list(inst.ac_status[0])
+        rec[6], rec[7] = 0x00, 0x05
+        inst.ac_status[0] = rec
+        rig.loop.vt_call_at(1.0, lambda: con.push(con.ac_status_frame(pid=0x68, only=[0])))
+        rig.loop.vt_call_at(t_drop, lambda: rig.net.current().reset())
+        rig.run(t_drop + 5.0)
+        ei = rig.ac(0).error_info
+        detail = {"error_info": repr(ei), "conns": len(rig.net.conns), "requests": con.kinds()[-6:]}
+        ctx.observe("error_info", repr(ei))
+        ctx.check(ei is not None and ei.code == 5 and ei.description == "ER: 0005", "refresh.model_converges", detail=detail)
+        ctx.check(len(rig.net.conns) == 2 and not rig.task_failures(), "refresh.requests_first", detail=detail)
     for lab in expect_labels("quick"):
         ctx.reach(lab)
 
